@@ -1327,9 +1327,6 @@ func c06Eval(cs *Case, ctx *EvalCtx) []Violation {
 			case "READ":
 				add(i, "read-after-err", fmt.Sprintf("after the first diagnostic %q the program read stdin (%q)", firstLine(o.Stderr), e.Data))
 				return
-			case "NOW":
-				add(i, "builtin-after-err", fmt.Sprintf("after the first diagnostic %q the clock was read", firstLine(o.Stderr)))
-				return
 			case "BUILTIN":
 				add(i, "builtin-after-err", fmt.Sprintf("after the first diagnostic %q built-in %s was invoked", firstLine(o.Stderr), e.Data))
 				return
